@@ -45,7 +45,7 @@ struct NvOpts
 {
   NvOpts() : optimize(false), list(false), quiet(true), dump_symbols(false),
              dump_macros(false), file_type(-1), org(-1), pass1_only(false),
-             raw_util_style(false), symdebug(false) {}
+             raw_util_style(false), max_dense_span(0), symdebug(false) {}
   std::string srcfile;         // if set: source is read from this file with tokens_open_file() (needed for .include)
   bool optimize, list, quiet, dump_symbols, dump_macros;
   int file_type;               // FILE_TYPE_* to also run file_write(), -1 none
@@ -55,6 +55,7 @@ struct NvOpts
   long org;                    // if >=0: set_org before each pass (naken_util style)
   bool pass1_only;
   bool raw_util_style;         // mimic main/naken_util.cpp assemble_code()
+  long max_dense_span;         // if >0: skip file_write of bin/elf/amiga/macho/uf2 images spanning more bytes (fuzzing)
   bool symdebug;               // pass 2 with symbols.set_debug() instead of lock() (tests/symbol_address interface)
 };
 
